@@ -672,3 +672,262 @@ Proof.
   - intros s log l s' _ [I HO] Cr E. split; [eapply inv1_step_raw; eauto|eapply invHO_step_raw; eauto].
   - intros s log s' [I HO] E. split; [eapply inv1_settle1; eauto|eapply invHO_settle1; eauto].
 Qed.
+
+(** * all invariants of a trace *)
+Lemma trace_invs c tr s : traces_to c tr s ->
+  inv1 s /\ invK s /\ invC s /\ invP s /\ invH s (evlog (init_of c) tr) /\ invO s (evlog (init_of c) tr).
+Proof.
+  intros T. assert (R := traces_reach _ _ _ T).
+  destruct (invCP_reach c s R) as (I & C & P). destruct (inv1K_reach c s R) as (_ & K).
+  destruct (invHO_reach c s _ (traces_reachE _ _ _ T)) as [H O]. splits; auto.
+Qed.
+
+(** * C04: who answered a request *)
+(* m is the member at position k of inbound record j of the delivery log of s *)
+Definition member_at (s : state) (j k : nat) (m : jmsg) : Prop :=
+  exists d, nth_error (delivs s) j = Some d /\ nth_error (d_msgs d) k = Some m.
+
+(* slot i (sl) holds v, written by the event e of the log:
+   e is the one and only event of the log that found the id of the slot pending (the first member carrying
+   that id that was delivered while the request was pending - members carrying it that were delivered before
+   or after found nothing and were dropped - or else the slot's own watcher); v is its value *)
+Definition answered_by (s : state) (log : list dev) (i : nat) (sl : slot) (v : val) (e : dev) : Prop :=
+  filter (hits (id_text (sl_id sl))) log = [e] /\ ev_val e = Some v /\ sl_buf sl = Some v
+  /\ match e with
+     | DMember j k m tgt =>
+         tgt = Some i /\ member_at s j k m /\ is_req_or_notif m = false /\ fix_id (j_id m) = id_text (sl_id sl)
+         /\ v = val_of_member j k m
+     | DWatch i' w =>
+         i' = i /\ w = Some v /\ exists cw, sl_pctx sl = Some cw /\ cause s sl cw /\ wval s sl cw v
+     end.
+
+Lemma filter_single_in {A} (p : A -> bool) l e : filter p l = [e] -> In e l /\ p e = true.
+Proof. intros H. apply filter_In. rewrite H. left; auto. Qed.
+
+Lemma answered_only s log i sl v e : answered_by s log i sl v e ->
+  (forall e', In e' log -> hits (id_text (sl_id sl)) e' = true -> e' = e)
+  /\ exists l1 l2, log = l1 ++ e :: l2 /\ filter (hits (id_text (sl_id sl))) l1 = [] /\ filter (hits (id_text (sl_id sl))) l2 = [].
+Proof.
+  intros (F & _). split.
+  - intros e' Hin Hh. assert (Hi : In e' (filter (hits (id_text (sl_id sl))) log)) by (apply filter_In; auto).
+    rewrite F in Hi. destruct Hi as [->|[]]. auto.
+  - destruct (filter_single_in _ _ _ F) as [Hin Hh]. apply in_split in Hin. destruct Hin as (l1 & l2 & ->).
+    exists l1, l2. split; auto. rewrite filter_app in F. cbn in F. rewrite Hh in F.
+    destruct (filter (hits (id_text (sl_id sl))) l1) as [|x r] eqn:E1.
+    + cbn in F. injection F as F. auto.
+    + cbn in F. injection F as _ F. destruct r; discriminate.
+Qed.
+
+Lemma slot_answer s log i sl v : inv1 s -> invC s -> invH s log ->
+  slot_at s i = Some sl -> sl_buf sl = Some v -> exists e, answered_by s log i sl v e.
+Proof.
+  intros I C [Hsrc Hok] Hs Hb. assert (A := Hsrc _ _ Hs). rewrite Hb in A. destruct A as (e & F & Hv).
+  destruct (filter_single_in _ _ _ F) as [Hin Hh]. rewrite Forall_forall in Hok. assert (Ok := Hok _ Hin).
+  exists e. unfold answered_by. splits; auto.
+  destruct e as [j k m [i'|]|i' [v'|]]; cbn in *; try discriminate.
+  - destruct Ok as (A1 & A2 & A3). destruct (A3 i' eq_refl) as (sl' & H1 & H2).
+    apply beq_eq in Hh. assert (i' = i) by (eapply slot_key_inj; eauto; congruence). subst i'.
+    injection Hv as <-. splits; auto.
+  - destruct Ok as (sl' & H1 & H2 & H3). injection Hv as ->.
+    apply beq_eq in Hh. assert (i' = i) by (eapply slot_key_inj; eauto; congruence). subst i'.
+    splits; auto. apply (c_wsrc _ C _ _ _ Hs Hb H3).
+Qed.
+
+Lemma slot_val_at s i v : slot_val s i = Some v -> exists sl, slot_at s i = Some sl /\ sl_buf sl = Some v.
+Proof. unfold slot_val. destruct (slot_at s i) as [sl|]; [eauto|discriminate]. Qed.
+
+Lemma Forall2_impl_in {A B} (R R' : A -> B -> Prop) l1 l2 :
+  Forall2 R l1 l2 -> (forall a b, In a l1 -> R a b -> R' a b) -> Forall2 R' l1 l2.
+Proof.
+  induction 1 as [|a b l1 l2 H H2 IH]; intros Hi; constructor.
+  - apply Hi; auto. left; auto.
+  - apply IH. intros a' b' Hin. apply Hi. right; auto.
+Qed.
+
+Lemma reply_is_peers c tr s : traces_to c tr s ->
+  (* Call: the value returned is the value of the one event that found the call's id pending *)
+  (forall n r, In (ORet n (RetCall r)) (hist s) ->
+     exists o i rest sl v e,
+       op_at s n = Some o /\ o_kind o = KCall /\ o_slots o = i :: rest /\ slot_at s i = Some sl /\ sl_op sl = n
+       /\ answered_by s (evlog (init_of c) tr) i sl v e /\ r = call_res v)
+  (* Batch: one response per allocated request slot, in slot (= spec) order, each the value of the one event
+     that found that request's id pending, tagged with that request's id *)
+  /\ (forall n rs, In (ORet n (RetBatch rs)) (hist s) ->
+        exists o, op_at s n = Some o /\ o_kind o = KBatch
+          /\ Forall2 (fun i p => exists sl v e, slot_at s i = Some sl /\ sl_op sl = n
+                                   /\ answered_by s (evlog (init_of c) tr) i sl v e
+                                   /\ p = (id_text (sl_id sl), batch_res v)) (o_slots o) rs).
+Proof.
+  intros T. destruct (trace_invs c tr s T) as (I & K & C & P & H & O). split.
+  - intros n r Hin. destruct (k_val _ K _ _ Hin) as (o & Ho & Hr).
+    destruct (P n o Ho) as (_ & _ & _ & D). destruct (D _ Hr) as (Hk & i & rest & v & Es & Hv & ->).
+    destruct (slot_val_at _ _ _ Hv) as (sl & Hs & Hb).
+    destruct (i_own _ (proj1 I) _ _ _ Ho ltac:(rewrite Es; left; reflexivity)) as (sl' & Hs' & Hop).
+    rewrite Hs in Hs'. injection Hs' as <-.
+    destruct (slot_answer s _ i sl v I C H Hs Hb) as (e & A).
+    exists o, i, rest, sl, v, e. splits; auto.
+  - intros n rs Hin. destruct (k_val _ K _ _ Hin) as (o & Ho & Hr).
+    destruct (P n o Ho) as (_ & _ & _ & D). destruct (D _ Hr) as (Hk & F).
+    exists o. splits; auto. eapply Forall2_impl_in; [exact F|].
+    intros i p Hi (v & Hv & ->). destruct (slot_val_at _ _ _ Hv) as (sl & Hs & Hb).
+    destruct (i_own _ (proj1 I) _ _ _ Ho Hi) as (sl' & Hs' & Hop). rewrite Hs in Hs'. injection Hs' as <-.
+    destruct (slot_answer s _ i sl v I C H Hs Hb) as (e & A).
+    exists sl, v, e. splits; auto. unfold slot_text. rewrite Hs. reflexivity.
+Qed.
+
+(** * C04: the returned value is determined by the member that answers the id (order irrelevance) *)
+Definition err_res (e : werr) : res1 :=
+  if (we_code e =? Cancelled)%Z then RCtx WCancel
+  else if (we_code e =? DeadlineExceeded)%Z then RCtx WDeadline else RErr e.
+(* what Call returns for a reply member / what Batch returns for it: a function of the member's payload only *)
+Definition member_res (m : jmsg) : res1 :=
+  match j_err m with
+  | Some e => err_res e
+  | None => match j_error m with Some e => err_res e | None => RRes (j_result m) end
+  end.
+Definition member_bres (m : jmsg) : res1 :=
+  match j_err m with
+  | Some e => RErr e
+  | None => match j_error m with Some e => RErr e | None => RRes (j_result m) end
+  end.
+
+Lemma call_res_member j k m : call_res (val_of_member j k m) = member_res m.
+Proof. unfold call_res, val_of_member, member_res, err_res. destruct (j_err m); cbn; auto. Qed.
+
+Lemma batch_res_member j k m : batch_res (val_of_member j k m) = member_bres m.
+Proof. unfold batch_res, val_of_member, member_bres. destruct (j_err m); cbn; auto. Qed.
+
+(* every member of every inbound record delivered so far, in any order and grouping *)
+Definition peer_members (s : state) : list jmsg := flat_map d_msgs (delivs s).
+(* the wire ids of the requests of operation n, in slot order *)
+Definition op_ids (s : state) (n : nat) : list bytes :=
+  match op_at s n with Some o => map (slot_text s) (o_slots o) | None => [] end.
+(* every reply-shaped member carrying id [key] that the peer sent has the same payload, seen through f *)
+Definition answers (s : state) (key : bytes) (f : jmsg -> res1) (a : res1) : Prop :=
+  Forall (fun m => is_req_or_notif m = false -> fix_id (j_id m) = key -> f m = a) (peer_members s).
+
+Lemma member_at_in s j k m : member_at s j k m -> In m (peer_members s).
+Proof.
+  intros (d & H1 & H2). unfold peer_members. apply in_flat_map. exists d. split; eapply nth_error_In; eauto.
+Qed.
+
+Lemma answered_live s log i sl v e o : answered_by s log i sl v e -> op_at s (sl_op sl) = Some o -> o_ctx o = None -> err s = None ->
+  exists j k m, member_at s j k m /\ is_req_or_notif m = false /\ fix_id (j_id m) = id_text (sl_id sl) /\ v = val_of_member j k m.
+Proof.
+  intros (_ & _ & _ & A) Ho Hc He. destruct e as [j k m tgt|i' w].
+  - destruct A as (_ & A1 & A2 & A3 & A4). exists j, k, m. auto.
+  - destruct A as (_ & _ & cw & _ & [(o' & B1 & B2)|[_ B]] & _); [congruence|contradiction].
+Qed.
+
+Lemma Forall2_in_r {A B} (R : A -> B -> Prop) l1 l2 b : Forall2 R l1 l2 -> In b l2 -> exists a, In a l1 /\ R a b.
+Proof.
+  induction 1 as [|a' b' l1 l2 H H2 IH]; intros Hin; [destruct Hin|].
+  destruct Hin as [<-|Hin]; [exists a'; split; [left|]; auto|].
+  destruct (IH Hin) as (a & A1 & A2). exists a. split; [right|]; auto.
+Qed.
+
+Lemma reply_determined c tr s : traces_to c tr s -> forall n o, op_at s n = Some o -> o_ctx o = None -> err s = None ->
+  (forall r key a, In (ORet n (RetCall r)) (hist s) -> hd_error (op_ids s n) = Some key -> answers s key member_res a -> r = a)
+  /\ (forall rs key r1 a, In (ORet n (RetBatch rs)) (hist s) -> In (key, r1) rs -> answers s key member_bres a -> r1 = a).
+Proof.
+  intros T n o Ho Hc He. destruct (reply_is_peers c tr s T) as [RC RB]. split.
+  - intros r key a Hin Hk Ha. destruct (RC n r Hin) as (o' & i & rest & sl & v & e & Ho' & _ & Es & Hs & Hop & A & ->).
+    rewrite Ho in Ho'. injection Ho' as <-.
+    unfold op_ids in Hk. rewrite Ho, Es in Hk. cbn in Hk. injection Hk as <-.
+    rewrite <- Hop in Ho. destruct (answered_live _ _ _ _ _ _ _ A Ho Hc He) as (j & k & m & M1 & M2 & M3 & ->).
+    rewrite call_res_member. unfold answers in Ha. rewrite Forall_forall in Ha. apply (Ha m); auto.
+    + eapply member_at_in; eauto.
+    + unfold slot_text. rewrite Hs. auto.
+  - intros rs key r1 a Hin Hk Ha. destruct (RB n rs Hin) as (o' & Ho' & _ & F).
+    rewrite Ho in Ho'. injection Ho' as <-.
+    destruct (Forall2_in_r _ _ _ _ F Hk) as (i & Hi & sl & v & e & Hs & Hop & A & Ep). injection Ep as -> ->.
+    rewrite <- Hop in Ho. destruct (answered_live _ _ _ _ _ _ _ A Ho Hc He) as (j & k & m & M1 & M2 & M3 & ->).
+    rewrite batch_res_member. unfold answers in Ha. rewrite Forall_forall in Ha. apply (Ha m); auto.
+    eapply member_at_in; eauto.
+Qed.
+
+(* two runs - any two schedules, any two orders / partitions / duplications of the peer's records - in
+   which the same ids are answered with the same payloads return the same values *)
+Lemma order_irrelevant c1 tr1 s1 c2 tr2 s2 : traces_to c1 tr1 s1 -> traces_to c2 tr2 s2 ->
+  forall n o1 o2, op_at s1 n = Some o1 -> op_at s2 n = Some o2 ->
+    o_ctx o1 = None -> o_ctx o2 = None -> err s1 = None -> err s2 = None ->
+    (forall key a r1 r2,
+       hd_error (op_ids s1 n) = Some key -> hd_error (op_ids s2 n) = Some key ->
+       answers s1 key member_res a -> answers s2 key member_res a ->
+       In (ORet n (RetCall r1)) (hist s1) -> In (ORet n (RetCall r2)) (hist s2) -> r1 = r2)
+    /\ (forall rs1 rs2 key a r1 r2,
+          In (ORet n (RetBatch rs1)) (hist s1) -> In (ORet n (RetBatch rs2)) (hist s2) ->
+          In (key, r1) rs1 -> In (key, r2) rs2 ->
+          answers s1 key member_bres a -> answers s2 key member_bres a -> r1 = r2).
+Proof.
+  intros T1 T2 n o1 o2 Ho1 Ho2 Hc1 Hc2 He1 He2.
+  destruct (reply_determined c1 tr1 s1 T1 n o1 Ho1 Hc1 He1) as [C1 B1].
+  destruct (reply_determined c2 tr2 s2 T2 n o2 Ho2 Hc2 He2) as [C2 B2]. split.
+  - intros key a r1 r2 K1 K2 A1 A2 R1 R2. rewrite (C1 _ _ _ R1 K1 A1), (C2 _ _ _ R2 K2 A2). reflexivity.
+  - intros rs1 rs2 key a r1 r2 R1 R2 I1 I2 A1 A2. rewrite (B1 _ _ _ _ R1 I1 A1), (B2 _ _ _ _ R2 I2 A2). reflexivity.
+Qed.
+
+(** * C05: OnCancel runs once per watcher write; the outcome of a call by who removed its entry *)
+Definition watch_written (sl : slot) : bool :=
+  match sl_buf sl with Some v => match v_src v with SWatch => true | SPeer _ _ => false end | None => false end.
+
+Lemma filter_andb {A} (p q : A -> bool) l : filter (fun x => p x && q x) l = filter q (filter p l).
+Proof. induction l as [|x l IH]; cbn; auto. destruct (p x); cbn; [destruct (q x); cbn; congruence|auto]. Qed.
+
+Lemma watch_outcome c tr s : traces_to c tr s ->
+  (* OnCancel count per allocated id: 1 iff the hook is configured and the slot was written by its watcher *)
+  (forall i sl, slot_at s i = Some sl ->
+     oc_count (id_text (sl_id sl)) (hist s) = if c_oncancel s && watch_written sl then 1 else 0)
+  (* never for an id that was not allocated *)
+  /\ (forall key, (forall i sl, slot_at s i = Some sl -> id_text (sl_id sl) <> key) -> oc_count key (hist s) = 0)
+  (* the hook sees the watcher's value *)
+  /\ (forall key e, In (OOnCancel key e) (hist s) ->
+        exists i sl v, slot_at s i = Some sl /\ id_text (sl_id sl) = key /\ sl_buf sl = Some v /\ v_src v = SWatch /\ v_err v = e)
+  (* the value returned by a call: the reply if a delivery removed the entry, the context's / stop's error if
+     the watcher did *)
+  /\ (forall n r, In (ORet n (RetCall r)) (hist s) ->
+        exists o i rest sl v, op_at s n = Some o /\ o_slots o = i :: rest /\ slot_at s i = Some sl /\ sl_buf sl = Some v
+          /\ r = call_res v
+          /\ match v_src v with
+             | SPeer j k => exists m, member_at s j k m /\ is_req_or_notif m = false
+                                      /\ fix_id (j_id m) = id_text (sl_id sl) /\ v = val_of_member j k m
+                                      /\ oc_count (id_text (sl_id sl)) (hist s) = 0
+             | SWatch => exists cw, sl_pctx sl = Some cw /\ cause s sl cw /\ wval s sl cw v
+                                    /\ oc_count (id_text (sl_id sl)) (hist s) = if c_oncancel s then 1 else 0
+             end).
+Proof.
+  intros T. destruct (trace_invs c tr s T) as (I & K & C & P & H & O).
+  set (log := evlog (init_of c) tr) in *.
+  assert (Hcount : forall i sl, slot_at s i = Some sl ->
+            oc_count (id_text (sl_id sl)) (hist s) = if c_oncancel s && watch_written sl then 1 else 0).
+  { intros i sl Hs. rewrite (o_count _ _ O). destruct (c_oncancel s); cbn [andb]; auto.
+    unfold whits. rewrite filter_andb. unfold watch_written.
+    destruct (sl_buf sl) as [v|] eqn:Hb.
+    - destruct (slot_answer s log i sl v I C H Hs Hb) as (e & F & Hv & _ & A). rewrite F.
+      destruct e as [j k m tgt|i' w]; cbn.
+      + destruct A as (_ & _ & _ & _ & ->). unfold val_of_member. destruct (j_err m); reflexivity.
+      + destruct A as (_ & _ & cw & _ & _ & (e0 & -> & _)). reflexivity.
+    - assert (A := h_src _ _ H _ _ Hs). rewrite Hb in A. rewrite A. reflexivity. }
+  splits; auto.
+  - intros key Hno. rewrite (o_count _ _ O). destruct (c_oncancel s); auto.
+    rewrite filter_none; auto. intros e He. unfold whits. destruct (hits key e) eqn:Eh; auto. exfalso.
+    assert (Ok := h_ok _ _ H). rewrite Forall_forall in Ok. destruct (hits_slot s e key (Ok e He) Eh) as (i & sl & A1 & A2).
+    apply (Hno i sl A1). auto.
+  - intros key e Hin. destruct (o_val _ _ O _ _ Hin) as (i & v & A1 & A2 & A3).
+    assert (Ok := h_ok _ _ H). rewrite Forall_forall in Ok. destruct (Ok _ A1) as (sl & B1 & B2 & B3).
+    assert (Hh : hits (id_text (sl_id sl)) (DWatch i (Some v)) = true) by (cbn; rewrite B2; apply beq_refl).
+    assert (Hf : In (DWatch i (Some v)) (filter (hits (id_text (sl_id sl))) log)) by (apply filter_In; auto).
+    assert (A := h_src _ _ H _ _ B1). exists i, sl, v. splits; auto; [congruence|].
+    destruct (sl_buf sl) as [v'|]; [|rewrite A in Hf; destruct Hf].
+    destruct A as (e' & F & Hv). rewrite F in Hf. destruct Hf as [->|[]]. cbn in Hv. congruence.
+  - intros n r Hin. destruct (reply_is_peers c tr s T) as [RC _].
+    destruct (RC n r Hin) as (o & i & rest & sl & v & e & Ho & _ & Es & Hs & Hop & A & ->).
+    exists o, i, rest, sl, v. destruct A as (F & Hv & Hb & A). splits; auto.
+    assert (Hc := Hcount _ _ Hs). unfold watch_written in Hc. rewrite Hb in Hc.
+    destruct e as [j k m tgt|i' w].
+    + destruct A as (_ & A1 & A2 & A3 & ->).
+      assert (Es' : v_src (val_of_member j k m) = SPeer j k) by (unfold val_of_member; destruct (j_err m); reflexivity).
+      rewrite Es' in *. rewrite andb_false_r in Hc. exists m. splits; auto.
+    + destruct A as (_ & _ & cw & A1 & A2 & A3). destruct A3 as (e0 & -> & A4). cbn in *.
+      rewrite andb_true_r in Hc. exists cw. splits; auto. exists e0. auto.
+Qed.
